@@ -587,10 +587,14 @@ def _run(ctx):
     monitors.install()
     engine.bq()
     import beanquery
-    if beanquery.threadsafety != 2:
-        ctx.notes.append(f'module advertises threadsafety {beanquery.threadsafety}')
+    level = getattr(beanquery, 'threadsafety', None)
+    if level != 2:
+        ctx.notes.append(f'module advertises threadsafety {level}')
+        if ctx.shard == 0:
+            ctx.violation('c20.threadsafety_level_not_advertised', f'beanquery.threadsafety is {level!r}: the module does not advertise DB-API thread safety level 2',
+                          {'replay': ['pair', 0, 'shared'], 'observed': repr(level)})
     if ctx.shard == 0:
-        ctx.count('obs.declared_threadsafety', beanquery.threadsafety)
+        ctx.count('obs.declared_threadsafety', level if isinstance(level, int) else -1)
     modes = ['shared', 'separate', 'different']
     work = [(pi, m) for pi in range(len(PAIRS)) for m in modes]
     # the twin ledger for the pairs whose statements consult per-connection look-up structures (prices, commodities, accounts)
